@@ -550,6 +550,36 @@ def replay_c20(d, case):
     return False, 'accepted and read consistently'
 
 
+def use_reader(pck, nlev, ndims, boxes0, lo, dx0):
+    """Ordinary uses of an open reader (box reads, iteration, point queries inside boxes and on box faces, comparison): whatever
+    they return or raise, they must leave the reader's metadata as the headers state it.  Runs on the real reader in replays and
+    on the reader under the engine."""
+    import contextlib, io
+
+    def quiet(fn):
+        try:
+            with contextlib.redirect_stdout(io.StringIO()), contextlib.redirect_stderr(io.StringIO()):
+                fn()
+        except Exception:
+            pass
+    f0 = list(pck.fields)[0]
+    for l in range(nlev):
+        quiet(lambda: pck[f0][l][0])
+        quiet(lambda: pck[:][l][:])
+        quiet(lambda: list(pck[f0][l]))
+    if ndims == 3:
+        for blo, bhi in boxes0:
+            centre = [lo[d] + (blo[d] + 0.5) * dx0[d] for d in range(3)]
+            quiet(lambda: pck[f0](*centre))
+            for d in range(3):
+                # a point on the upper face of the box (between two boxes where the box has a neighbour there)
+                p = list(centre)
+                p[d] = lo[d] + (bhi[d] + 1) * dx0[d]
+                quiet(lambda: pck[:](*p))
+                quiet(lambda: pck[f0](*p))
+    quiet(lambda: pck == pck)
+
+
 def replay_c02(d, case):
     from amr_kitchen import PlotfileCooker
     limit, header_only, maxmins = case['args']
@@ -571,6 +601,8 @@ def replay_c02(d, case):
     if limit is not None and limit > nlev_all - 1:
         return True, 'a limit above the finest level was accepted'
     nlev = nlev_all if limit is None else limit + 1
+    if case.get('history'):
+        use_reader(pck, nlev, E['ndims'], E['boxes'][0], E['lo'], E['dx'][0])
 
     def close(a, b):
         return abs(float(a) - float(b)) <= 1e-12 * max(1.0, abs(float(b)))
